@@ -104,8 +104,10 @@ def catb (grant : Nat → Bool) (x : GA) (n : Nat) : Out :=
   else r
 
 /-- quote.c `doit(saout,sain)`: `inLen = sain->len`, `esc` = how many of its bytes are CR, LF, `"` or
-`\` (each costs one extra byte); `esc ≤ inLen` always. `j` is a C `int`. -/
-def quoteDoit (grant : Nat → Bool) (out : GA) (inLen esc : Nat) : Out :=
+`\` (each costs one extra byte); `esc ≤ inLen` always.  `signedCtr` = the type of the counters `i`, `j`:
+`false` = `unsigned int` (the code since commit 26e354b), `true` = `int` (the code before it, kept as the
+mutant model: incrementing `j` beyond INT_MAX is undefined behaviour, recorded in `ub`). -/
+def quoteDoit (signedCtr : Bool) (grant : Nat → Bool) (out : GA) (inLen esc : Nat) : Out :=
   -- if (__builtin_mul_overflow(sain->len, 2, &nlen) || __builtin_add_overflow(nlen, 2, &nlen)) return 0;
   if inLen * 2 ≥ U32 then ⟨false, out, none, [], false⟩ else
   if inLen * 2 + 2 ≥ U32 then ⟨false, out, none, [], false⟩ else
@@ -114,8 +116,16 @@ def quoteDoit (grant : Nat → Bool) (out : GA) (inLen esc : Nat) : Out :=
   if r.ret then
     -- j = 0; s[j++] = '"'; for … { if (special) s[j++] = '\\'; s[j++] = ch; } s[j++] = '"'; saout->len = j;
     let j := inLen + esc + 2
-    { r with x := { r.x with len := j % U32 }, st := [(0, j)], ub := decide (j > INT_MAX) }
+    { r with x := { r.x with len := j % U32 }, st := [(0, j)], ub := signedCtr && decide (j > INT_MAX) }
   else r
+
+/-- quote.c `quote_need(s,n)`: the offsets of `s` it may read (all three loops run to completion in the
+worst case): `s[i]` for `i < n`, `s[0]`, `s[n-1]`, and `s[i]`, `s[i+1]` for `i < n-1`. -/
+def quoteNeedReads (n : Nat) : List Nat :=
+  if n = 0 then [] else List.range n ++ [0, n - 1] ++ (List.range (n - 1)).flatMap (fun i => [i, i + 1])
+
+/-- `quote_need`'s counter `i` reaches `n`; as a signed `int` (pre-26e354b) that overflows for `n > INT_MAX` -/
+def quoteNeedUb (signedCtr : Bool) (n : Nat) : Bool := signedCtr && decide (n > INT_MAX)
 
 /-- number of bytes `quote.c doit()` escapes -/
 def escCount (s : Bytes) : Nat :=
